@@ -142,26 +142,31 @@ int main(void) {
 				printf("\n");
 				KSI_free(ser); free(buf); KSI_TLV_free(t);
 			}
-		} else if (line[0] == 'S' || line[0] == 'K') {
-			unsigned char *buf = H_MALLOC(0xffff + 4); int rc = 0, first = 1; size_t total = 0;
-			raw = hx_dec(line + 2, &len);
+		} else if (line[0] == 'S' || line[0] == 'K' || line[0] == 's' || line[0] == 'k') {
+			/* S/K <hex>: reader buffer of the maximum element size; s/k <bufSize> <hex>: reader buffer of exactly bufSize bytes (heap, so ASan sees any overrun).
+			 * After each successful read the buffer must hold exactly the element's bytes: eq=<number of reads whose buffer content differed>. */
+			int file = (line[0] == 'S' || line[0] == 's'); char *hex = line + 2; size_t bs = 0xffff + 4;
+			unsigned char *buf; int rc = 0, first = 1, diff = 0; size_t total = 0;
+			if (line[0] == 's' || line[0] == 'k') { bs = (size_t)atol(line + 2); hex = strchr(line + 2, ' '); hex = hex ? hex + 1 : ""; }
+			buf = H_MALLOC(bs ? bs : 1);
+			raw = hx_dec(hex, &len);
 			printf("%c ", line[0]);
-			if (line[0] == 'S') {
+			if (file) {
 				FILE *f = len ? fmemopen(raw, len, "rb") : NULL;
-				while (f && total < len) { KSI_FTLV t; size_t c = 0; rc = KSI_FTLV_fileRead(f, buf, 0xffff + 4, &c, &t); if (rc != KSI_OK) break; printf("%s%zu", first ? "" : ",", c); first = 0; total += c; }
+				while (f && total < len) { KSI_FTLV t; size_t c = 0; rc = KSI_FTLV_fileRead(f, buf, bs, &c, &t); if (rc != KSI_OK) { printf("%s!%zu", first ? "" : ",", c); break; } if (c > bs || memcmp(buf, raw + total, c)) diff++; printf("%s%zu", first ? "" : ",", c); first = 0; total += c; }
 				if (f) fclose(f);
 			} else {
 				int sv[2];
 				if (socketpair(AF_UNIX, SOCK_STREAM, 0, sv) == 0) {
-					size_t w = 0; while (w < len) { ssize_t k = write(sv[0], raw + w, len - w > 60000 ? 60000 : len - w); if (k <= 0) break; w += (size_t)k;
+					size_t w = 0; while (w < len && rc == KSI_OK) { ssize_t k = write(sv[0], raw + w, len - w > 60000 ? 60000 : len - w); if (k <= 0) break; w += (size_t)k;
 						/* drain as we go so that large inputs do not block */
-						while (total < w) { KSI_FTLV t; size_t c = 0; size_t avail = w - total; KSI_FTLV h; if (avail < 2 || KSI_FTLV_memRead(raw + total, avail, &h) != KSI_OK) break; rc = KSI_FTLV_socketRead(sv[1], buf, 0xffff + 4, &c, &t); if (rc != KSI_OK) break; printf("%s%zu", first ? "" : ",", c); first = 0; total += c; } }
+						while (total < w) { KSI_FTLV t; size_t c = 0; size_t avail = w - total; KSI_FTLV h; if (avail < 2 || KSI_FTLV_memRead(raw + total, avail, &h) != KSI_OK) break; rc = KSI_FTLV_socketRead(sv[1], buf, bs, &c, &t); if (rc != KSI_OK) { printf("%s!%zu", first ? "" : ",", c); break; } if (c > bs || memcmp(buf, raw + total, c)) diff++; printf("%s%zu", first ? "" : ",", c); first = 0; total += c; } }
 					close(sv[0]);
-					while (rc == KSI_OK && total < len) { KSI_FTLV t; size_t c = 0; rc = KSI_FTLV_socketRead(sv[1], buf, 0xffff + 4, &c, &t); if (rc != KSI_OK) break; printf("%s%zu", first ? "" : ",", c); first = 0; total += c; }
+					while (rc == KSI_OK && total < len) { KSI_FTLV t; size_t c = 0; rc = KSI_FTLV_socketRead(sv[1], buf, bs, &c, &t); if (rc != KSI_OK) { printf("%s!%zu", first ? "" : ",", c); break; } if (c > bs || memcmp(buf, raw + total, c)) diff++; printf("%s%zu", first ? "" : ",", c); first = 0; total += c; }
 					close(sv[1]);
 				}
 			}
-			printf(" rc=%d\n", rc);
+			printf(" eq=%d rc=%d\n", diff, rc);
 			free(raw); free(buf);
 		} else { fprintf(stderr, "unknown command\n"); return 2; }
 		fflush(stdout);
